@@ -7,6 +7,7 @@ CONSTANTS
   Faults = {}
   MaxFaults = 0
   Pickle = "ascoded"
+  Variant = "ascoded"
   MaxLen = 2
   MaxBatch = 1
 SPECIFICATION MCSpec
